@@ -406,6 +406,7 @@ impl ScriptShim {
         v
     }
     fn begin(&mut self, kind: CbKind) -> usize {
+        crate::core::beat();
         let ev = self.tick();
         let mut l = self.log.borrow_mut();
         l.cbs.push(Cb { ev_start: ev, ev_end: 0, kind, results: vec![], script: None, mismatch: false, params_consumed: None });
